@@ -575,6 +575,9 @@ def c07(res, wd):
         variants += [("k2_w2_f3", {"Window": 2, "MaxFrame": 3, "Mortal": "{1}"}),
                      ("k2_w0_f3", {"Window": 0, "MaxFrame": 3, "Mortal": "{1}"}),
                      ("k21_w1_f2", {"Window": 1, "MaxFrame": 2, "Mortal": "{0}", "Peers": "GenPeers21", "NumPlayers": 3})]
+    # time-out detection in the composed model (clock steps of 250 ms, notify 300, timeout 600, packets dropped)
+    variants.append(("clk250_f1", {"Granular": "TRUE", "ClockSteps": "Clk250", "MaxClock": 1000750, "Timeout": 600,
+                                   "Notify": 300, "Window": 1, "MaxFrame": 1, "Values": "GenValues1"}))
     model_session(res, wd, "C07", variants, {"C07"})
     ns, depth = sizes(res.tier, (8, 100), (60, 150))
     engines.s2i_runs(res, "C07", wd, "g2k", {"MaxFrame": 8, "Mortal": "{0, 1}", "MaxSteps": depth - 10},
@@ -789,6 +792,15 @@ def c12(res, wd):
         if not held:
             raise core.ToolError("MC_Handshake/%s violates its properties: the handshake model deviates from the "
                                  "code or the code is defective; see %s" % (name, wd))
+    # the timers in the composed model: the clock advances in steps of 250 ms (notify 300, timeout 600), packets
+    # may be dropped and sessions may stay idle, so interruptions, resumptions and time-outs occur in every order
+    # the code allows; the monitor's timing and life-cycle predicates are the invariant
+    clocked = [("clk250_f1", {"Granular": "TRUE", "ClockSteps": "Clk250", "MaxClock": 1000750, "Timeout": 600,
+                              "Notify": 300, "Window": 1, "MaxFrame": 1, "Values": "GenValues1"})]
+    if res.tier == "thorough":
+        clocked += [("clk350_f1", dict(clocked[0][1], ClockSteps="Clk350", MaxClock=1001050)),
+                    ("clk250_w0", dict(clocked[0][1], Window=0))]
+    model_session(res, wd, "C12", clocked, {"C12", "C07"})
     rng = random.Random(res.seed * 1000 + 120)
     n, frames = sizes(res.tier, (10, 150), (80, 600))
     # (a) handshake under heavy loss / duplication / reordering, 2-4 peers, spectators
